@@ -41,6 +41,28 @@ def parse_race_reports(paths):
     return uniq
 
 
+# hammered query helpers with a fixed population of their own (harness c18.go): the replay of a race
+# report in query evaluation is the hammer that exercises that code, not the whole run
+X_EMPTY_PAGED = "boltz.BaseStore.QueryIdsC/empty-filter-with-own-paging"
+X_DOTTED = "boltz.BaseStore.QueryIds/dotted-symbols-and-subqueries"
+RACE_HINTS = [
+    (("compositeEntity", "stackedCursor", "EntitySetSymbol", "entitySetSymbol", "GetSymbol"), X_DOTTED),
+    (("queryNode", "setPaging", "LimitExprNode", "SkipExprNode", "SortByNode"), X_EMPTY_PAGED),
+]
+
+
+def race_replay_case(r, cases, run_case):
+    """the smallest case that re-runs the code a race report is about"""
+    for x in cases:
+        if x.startswith("X ") and "/" not in x and x[2:].split(".")[-1] in r["func"]:
+            return x
+    for where in (r["func"], r["text"]):   # the racing function first, then the stacks
+        for words, helper in RACE_HINTS:
+            if any(w in where for w in words):
+                return "X " + helper
+    return run_case
+
+
 def table_conflicts(path):
     """conflicting unsynchronised accesses of the generated table (same definition as Db/Access.v)"""
     try:
@@ -144,9 +166,21 @@ def main(argv):
 
     def replay_for(k):
         """minimal replay of a reader disagreement: the committed writer transactions up to the
-        version the reader had bound, then the query"""
-        ver = int(cases[k].split()[3])
-        lines = [cases[j] for j in committed[:ver]] + [cases[k]]
+        version the reader had bound, then the query.  Listings and paged queries are wrapped in a
+        sequential probe for state leaking between query objects (the serial re-execution of the query
+        alone cannot show an answer that was disturbed by another caller's paging): a paged empty-filter
+        listing before it, an unpaged one after it"""
+        f = cases[k].split()
+        ver = int(f[3])
+        lines = [cases[j] for j in committed[:ver]]
+        if f[4] in ("list", "glist", "all", "page"):
+            lines += ["Q 0 0 %d list 2 1" % ver, cases[k], "Q 0 0 %d all" % ver, "Q 0 0 %d glist -1 -1" % ver, "X " + X_EMPTY_PAGED]
+        elif f[4] in ("f4", "f5", "f6", "f7", "f8", "wcount", "subhas", "subcount", "gname", "gtag", "gwtag", "gsub"):
+            # the serial re-execution gives the serial answer by construction; the concurrent counterpart is
+            # the hammer of the same filters (many read transactions at once on a fixed population)
+            lines += [cases[k], "X " + X_DOTTED]
+        else:
+            lines.append(cases[k])
         return "\n".join(lines)
 
     distinct = set()
@@ -179,9 +213,8 @@ def main(argv):
             if i != m:
                 c.violation("C18:helper-wrong-under-concurrency", "%s answered wrongly when called from many goroutines: %s" % (case[2:], i), dict(case=case, impl=i))
     for r in races:
-        helper = next((x[2:] for x in cases if x.startswith("X ") and x[2:].split(".")[-1] in r["func"]), None)
         c.violation("C18:data-race:" + r["func"], "the race detector reported a data race in %s" % r["func"],
-                    dict(case="X " + helper if helper else (cases[0] if cases else ""), race_report=r["text"], function=r["func"]))
+                    dict(case=race_replay_case(r, cases, "RUN seed=%d tier=%s" % (c.seed, c.tier)), race_report=r["text"], function=r["func"]))
 
     if c.replay:
         for case, i, m in zip(cases, impl, modl):
